@@ -158,7 +158,7 @@ func writeEvidence(verif, prop, tier string, seed int, results []*interp.Harness
 		}
 		totalOblig += r.Obligations
 		totalDis += r.Discharged
-		evals += r.ObligQueries + r.TrivialOblig
+		evals += r.ObligQueries + r.TrivialOblig + r.ImplicitNoPanic
 		distinct += r.SymbolicPaths
 		solverS += r.SolverTime.Seconds()
 		var labels []string
@@ -210,7 +210,7 @@ func writeEvidence(verif, prop, tier string, seed int, results []*interp.Harness
 		"explanation":         expl,
 		"evaluations":         evals,
 		"distinct_nontrivial": distinct,
-		"rule":                "evaluations = obligations decided (solver obligation queries + obligations whose condition folded to a concrete true); distinct_nontrivial = completed execution paths that carry at least one symbolic input or symbolic branch decision (each path has a distinct decision sequence)",
+		"rule":                "evaluations = obligations decided (solver obligation queries + obligations whose condition folded to a concrete true + one implicit no-panic obligation per completed path); distinct_nontrivial = completed execution paths that carry at least one symbolic input or symbolic branch decision (each path has a distinct decision sequence)",
 		"samples":             samples,
 		"obligations":         totalOblig,
 		"discharged":          totalDis,
